@@ -1,6 +1,6 @@
 import LokiModel.Sexp
 import LokiModel.Fir.Codec
-import LokiModel.C26.Model
+import LokiModel.C26.Trace
 open LokiModel.C26 LokiModel.Fir Sexp
 
 namespace C26Driver
@@ -41,6 +41,20 @@ def step : Sexp → Option Sexp
       if crashL c u.body then pure (list [atom "error", atom "attributeerror"]) else
       let r := bodyDU c u.body
       pure (list [atom "ok", encSet r.1, encSet r.2, list ((annL c (initialLive u) [] u.body).map encAnn)])
+  -- `(known enrich prog k x kind)`: is variable x at node number k (pre-order in the main body) inside the theorem's
+  -- covered class / inside the known class of `defines` (kind def) or `uses` (kind use)?  Used by the post hook.
+  | list [atom "known", e, prog, k, x, kind] => do
+      let enr ← decBool e
+      let p ← decProgram prog
+      let u ← findUnit p p.main
+      let k ← k.toNat?
+      let x ← x.toStr?
+      let c : Ctx := { p := p, enr := enr }
+      let s ← (flatL u.body)[k]?
+      let kn := match kind with
+        | atom "def" => KnownDefS x s
+        | _ => knownUS c x s
+      pure (list [atom "ok", ofBool (coveredS s), ofBool kn])
   | _ => none
 
 def main : IO _root_.Unit := driverMain step
